@@ -239,6 +239,10 @@ func admBody(cfg admCfg, r admReq) vsched.Body {
 		for _, t := range x.Panics() {
 			x.Fail("panic[admission]: thread %s: %v (%s | %s)", t.Name, t.Panic, cfg, r)
 		}
+		if resp.Panic != nil {
+			x.Fail("panic[admission handler]: %v (%s | %s)", resp.Panic, cfg, r)
+			return
+		}
 		// observe
 		var got admOutcome
 		var body struct {
@@ -396,7 +400,7 @@ func init() {
 			rc := rc
 			mount := refMount(rc)
 			base := strings.TrimRight(mount, "/")
-			paths := []string{mount, base, base + "/", base + "/sub", base + "/sub/", base + "x", base + "/./", base + "//", "/." + base + "/", base + "/../" + strings.TrimPrefix(base, "/") + "/", base + "/..", "/other" + base + "/../.." + base + "/",
+			paths := []string{mount, base, base + "/", base + "/sub", base + "/sub/", base + "x", base + "/./", base + "//", "/." + base + "/", base + "/../" + strings.TrimPrefix(base, "/") + "/", base + "/..", base + "/.", base + "/sub/..", "/other" + base + "/../.." + base + "/",
 				strings.ToUpper(base) + "/", "/", "/unrelated", "/unrelated/", "/engine.io/", "/engine.io", "/socket.io/"}
 			for _, method := range []string{"GET", "POST", "CONNECT", "OPTIONS", "DELETE"} {
 				for _, rp := range paths {
@@ -455,12 +459,12 @@ func init() {
 		}
 		c.Res.Distinct = int64(n)
 		c.Sample("route attach=nil path=unset addTrailingSlash=unset | GET /engine.io/")
-		c.Note("attach {nil, server options only, attach options with path in {unset,/engine.io,/engine.io/,/x,/x/,/a/b,/a/b//} x addTrailingSlash {unset,true,false}} x 19 request paths (mount, +-slash, sub-paths, dot segments, doubled slashes, case variant, unrelated) x {GET,POST,CONNECT,OPTIONS,DELETE} through types.HttpServer.ServeHTTP; oracle = reference clean-path + mount rule")
+		c.Note("attach {nil, server options only, attach options with path in {unset,/engine.io,/engine.io/,/x,/x/,/a/b,/a/b//} x addTrailingSlash {unset,true,false}} x 21 request paths (mount, +-slash, sub-paths, dot segments, doubled slashes, case variant, unrelated) x {GET,POST,CONNECT,OPTIONS,DELETE} through types.HttpServer.ServeHTTP; oracle = reference clean-path + mount rule")
 	})
 
 	cfgsFor := func(thorough bool) []admCfg {
 		var out []admCfg
-		for _, tr := range [][]string{{"polling", "websocket"}, {"polling"}, {"websocket"}} {
+		for _, tr := range [][]string{{"polling", "websocket"}, {"polling"}, {"websocket"}, {"polling", "websocket", "webtransport"}} {
 			for _, e3 := range []bool{false, true} {
 				for hook := 0; hook < 3; hook++ {
 					for mw := 0; mw < 3; mw++ {
